@@ -10,18 +10,32 @@
  */
 
 #include <cmath>
+#include <type_traits>
 
 #include "common.hpp"
 
 SMOOTH_BEGIN_NAMESPACE
 
 namespace detail {
+
+/// @brief Squared-argument threshold below which the three-term Taylor expansion of the
+/// order-N tail is more accurate than the closed form (which cancels like eps * N! / x^N).
+template<typename S, int N>
+S taylor_eps2()
+{
+  using std::pow;
+  double eps = 2.2e-16;
+  if constexpr (std::is_same_v<S, float>) { eps = 1.2e-7; }
+  double fac = 1;
+  for (int k = 2; k <= N + 6; ++k) { fac *= k; }
+  return S(pow(eps * fac, 2. / (N + 6)));
+}
 template<typename S>
 S cos_2(const S & x2)
 {
   using std::cos, std::sqrt;
 
-  if (x2 > S(eps2)) {
+  if (x2 > taylor_eps2<S, 2>()) {
     const S x = sqrt(x2);
     return (cos(x) - S(1)) / x2;
   } else {
@@ -34,7 +48,7 @@ S sin_3(const S & x2)
 {
   using std::sin, std::sqrt;
 
-  if (x2 > S(eps2)) {
+  if (x2 > taylor_eps2<S, 3>()) {
     const S x = sqrt(x2);
     return (sin(x) - x) / (x2 * x);
   } else {
@@ -47,7 +61,7 @@ S cos_4(const S & x2)
 {
   using std::cos, std::sqrt;
 
-  if (x2 > S(eps2)) {
+  if (x2 > taylor_eps2<S, 4>()) {
     const S x = sqrt(x2);
     return (cos(x) - S(1) + x2 / S(2)) / (x2 * x2);
   } else {
@@ -60,7 +74,7 @@ S sin_5(const S & x2)
 {
   using std::sin, std::sqrt;
 
-  if (x2 > S(eps2)) {
+  if (x2 > taylor_eps2<S, 5>()) {
     const S x = sqrt(x2);
     return (sin(x) - x + x2 * x / 6) / (x2 * x2 * x);
   } else {
@@ -74,7 +88,7 @@ S cos_6(const S & x2)
   using std::cos, std::sqrt;
 
   const S x4 = x2 * x2;
-  if (x2 > S(eps2)) {
+  if (x2 > taylor_eps2<S, 6>()) {
     const S x = sqrt(x2);
     return (cos(x) - S(1) + x2 / S(2) - x4 / S(24)) / (x4 * x2);
   } else {
